@@ -308,6 +308,10 @@ func run(p *propCfg, tier string, seed int64, replay string, determinism bool, s
 			per := perWorker
 			if p.OnePerProcess {
 				per = 1
+			} else if !p.Enumerate && per > 3000 {
+				// a fresh process every few thousand runs: goroutines still blocked when a run ends
+				// stay behind in their bubble, and a long batch would grow without bound
+				per = 3000
 			}
 			deadline := start.Add(time.Duration(budget) * time.Second)
 			for k := 0; k < perWorker; k += per {
@@ -328,7 +332,7 @@ func run(p *propCfg, tier string, seed int64, replay string, determinism bool, s
 					fmt.Sprintf("SIM_EW=%d", workers), fmt.Sprintf("SIM_EI=%d", w),
 					fmt.Sprintf("SIM_SEED0=%d", seed0+uint64(w)+uint64(k)*uint64(workers)),
 					fmt.Sprintf("SIM_STRIDE=%d", workers),
-					fmt.Sprintf("SIM_COUNT=%d", per),
+					fmt.Sprintf("SIM_COUNT=%d", min(per, perWorker-k)),
 					fmt.Sprintf("SIM_BUDGET_S=%d", left),
 					"SIM_OUT=" + outFile, "SIM_REPLAY_DIR=" + replayDir,
 					"SIM_KNOWN=" + strings.Join(knownClasses, ","),
@@ -349,10 +353,25 @@ func run(p *propCfg, tier string, seed int64, replay string, determinism bool, s
 					cur, _ := os.ReadFile(outFile + ".cur")
 					s, _ := strconv.ParseUint(strings.TrimSpace(string(cur)), 10, 64)
 					mu.Lock()
-					if strings.Contains(log, "watchdog") || (err != nil && strings.Contains(err.Error(), "watchdog")) {
+					switch {
+					case strings.Contains(log, "watchdog") || (err != nil && strings.Contains(err.Error(), "watchdog")):
 						trouble = append(trouble, fmt.Sprintf("worker %d seed %d: %v", w, s, err))
-					} else {
-						crashes = append(crashes, crashReport(p, s, log, replayDir))
+					case !strings.Contains(log, "\npanic:") && !strings.Contains(log, "\nfatal error:") && !strings.HasPrefix(log, "panic:"):
+						// killed from outside (memory?) or died without a Go panic: not a finding about the code
+						trouble = append(trouble, fmt.Sprintf("worker %d died at seed %d without a panic: %v", w, s, err))
+					default:
+						cr := crashReport(p, s, log, replayDir)
+						// a crash counts once it happens again from its seed alone in a fresh process
+						again := filepath.Join(scratch, fmt.Sprintf("crash.%d.%d.json", w, s))
+						mu.Unlock()
+						_, _ = runWorker(wbin, []string{"SIM_MODE=batch", "SIM_PROP=" + p.ID, fmt.Sprintf("SIM_SEED0=%d", s), "SIM_COUNT=1", "SIM_STRIDE=1",
+							"SIM_OUT=" + again, "SIM_REPLAY_DIR=" + replayDir, "SIM_KNOWN=" + strings.Join(knownClasses, ",")}, time.Duration(p.WatchdogSlackS)*time.Second)
+						mu.Lock()
+						if _, e := os.Stat(again); e == nil {
+							trouble = append(trouble, fmt.Sprintf("worker %d crashed at seed %d (%s) but the seed alone does not crash a fresh process", w, s, cr.Violation.Msg))
+						} else {
+							crashes = append(crashes, cr)
+						}
 					}
 					mu.Unlock()
 					return
